@@ -262,11 +262,12 @@ def seqRes (o : Oracle) (b b' : Pat) (ra rb : Res) : Res :=
   let r' := seqStep o b' ra rb
   if r'.errs.isEmpty then r' else r
 
-/-- concatenation right-to-left, loop bodies: plain congruence -/
-def congr2 (ra rb : Res) : Res :=
-  let a := ra.eqOnly
+/-- concatenation right-to-left: the second factor (evaluated first) has to be the same; the first
+    factor is the one evaluated last, where only the first success may be what is kept -/
+def seqRtl (ra rb : Res) : Res :=
   let b := rb.eqOnly
-  { sites := [], head := true, why := 0, errs := a.errs ++ b.errs, made := a.made + b.made }
+  if ra.sites.isEmpty then { sites := [], head := true, why := 0, errs := ra.errs ++ b.errs, made := ra.made + b.made }
+  else { sites := [.top], head := ra.headOK, why := ra.why, errs := ra.errs ++ b.errs, made := ra.made + b.made }
 
 /-- branches of an alternation or conditional -/
 def union (ra rb : Res) : Res :=
@@ -301,12 +302,15 @@ def quantRes (o : Oracle) (rtl : Bool) (x x' : Pat) (lzy : Bool) (lo : Nat) (hi 
     else if hi = some 1 then
       -- `case NtLoop: if node.N == 1`: an optional construct in tail position
       r.close.topOf 0
-    else if rtl = false ∧ bodyKills o x x' r.sites = true then
+    else if rtl then
+      -- a rewritten place at the end of a right-to-left loop body: not modelled
+      { r with errs := r.errs ++ [.other 40] }
+    else if bodyKills o x x' r.sites = true then
       { r with head := r.headOK }
     else r.eqOnly
   else if lzy = true ∧ lzy' = true ∧ lo = lo' ∧ hi' = some lo ∧ hiAtLeast hi lo = true then
     -- `case NtLazyloop: node.N = node.M`
-    if lo = 1 then r.close.topOf 1 else r.eqOnly.topOf 1
+    if lo = 1 ∨ (rtl = false ∧ bodyKills o x x' r.sites = true) then r.close.topOf 1 else r.eqOnly.topOf 1
   else .fail 20
 
 /-- the rewritten concatenation may carry the bump-along marker (`UpdateBumpalong`, Empty for the
@@ -314,6 +318,12 @@ def quantRes (o : Oracle) (rtl : Bool) (x x' : Pat) (lzy : Bool) (lo : Nat) (hi 
 def seqMarker (o : Oracle) (b : Pat) (ra r : Res) (certb : Pat → Res) : Pat → Res
   | .seq .empty b'' => orElse r (seqRes o b b'' ra (certb b''))
   | _ => r
+
+/-- `q` written `n` times (a Multi node as `gen.FromGoTree` prints it) -/
+def repPat (q : Pred) : Nat → Pat
+  | 0 => .empty
+  | 1 => .chr q
+  | n + 2 => .seq (.chr q) (repPat q (n + 1))
 
 /-- the places where a single-character loop `q{lo,hi}` (lazy or not) has been replaced:
     * by the atomic greedy loop (`makeLoopAtomic` on a greedy loop; "lazy to greedy" + `makeLoopAtomic`
@@ -326,19 +336,27 @@ def charSite (lzy : Bool) (lo : Nat) (hi : Option Nat) (q : Pred) (p' : Pat) : O
   else if p' = .atomic (.quant false lo hi (.chr q)) then
     some (if lzy then ⟨[.acc q], false, 1, [], 1⟩ else ⟨[loopSite q lo], true, 0, [], 1⟩)
   else if lzy = true ∧ hiAtLeast hi lo = true ∧
-      (p' = .atomic (.quant false lo (some lo) (.chr q)) ∨ (lo = 0 ∧ p' = .empty)) then
+      (p' = .atomic (.quant false lo (some lo) (.chr q)) ∨ p' = repPat q lo) then
+    -- `makeLoopAtomic` on a lazy loop in tail position: the repeater `x{lo}`, Empty when `lo = 0`, a
+    -- Multi string for a small repeater of one rune
     some ⟨[.top], true, 0, [], 1⟩
   else none
 
+/-- right-to-left (inside lookbehinds; `eliminateEndingBacktracking` walks from a left-to-right
+    root into them): only the tail-position rewrites — a greedy loop made atomic, a lazy `q*?` dropped -/
+def charSiteRtl (lzy : Bool) (lo : Nat) (hi : Option Nat) (q : Pred) (p' : Pat) : Option Res :=
+  if lzy = false ∧ p' = .atomic (.quant false lo hi (.chr q)) then some ⟨[.top], true, 0, [], 1⟩
+  else if lzy = true ∧ lo = 0 ∧ p' = .empty then some ⟨[.top], true, 0, [], 1⟩
+  else none
+
 def siteOf (rtl : Bool) (lzy : Bool) (lo : Nat) (hi : Option Nat) (p' : Pat) : Pat → Option Res
-  | .chr q => if rtl then none else charSite lzy lo hi q p'
+  | .chr q => if rtl then charSiteRtl lzy lo hi q p' else charSite lzy lo hi q p'
   | _ => none
 
 /-- a loop against a loop, or against a loop wrapped in Atomic (tail position) -/
 def quantGeneric (o : Oracle) (rtl : Bool) (x : Pat) (lzy : Bool) (lo : Nat) (hi : Option Nat) (certx : Pat → Res) : Pat → Res
   | .quant lzy' lo' hi' x' => quantRes o rtl x x' lzy lo hi lzy' lo' hi' (certx x')
-  | .atomic (.quant lzy' lo' hi' x') =>
-    if rtl then .fail 23 else (quantRes o rtl x x' lzy lo hi lzy' lo' hi' (certx x')).wrap
+  | .atomic (.quant lzy' lo' hi' x') => (quantRes o rtl x x' lzy lo hi lzy' lo' hi' (certx x')).wrap
   | _ => .fail 24
 
 /-- `cert o rtl p p'`: `p` the un-rewritten tree, `p'` the rewritten one, both evaluated in
@@ -352,7 +370,7 @@ def cert (o : Oracle) : Bool → Pat → Pat → Res
   | rtl, .seq a b, p' =>
     match p' with
     | .seq a' b' =>
-      if rtl then congr2 (cert o rtl a a') (cert o rtl b b')
+      if rtl then seqRtl (cert o rtl a a') (cert o rtl b b')
       else
         seqMarker o b (cert o rtl a a') (seqRes o b b' (cert o rtl a a') (cert o rtl b b'))
           (fun y => cert o rtl b y) b'
@@ -360,7 +378,7 @@ def cert (o : Oracle) : Bool → Pat → Pat → Res
   | rtl, .alt a b, p' =>
     match p' with
     | .alt a' b' => union (cert o rtl a a') (cert o rtl b b')
-    | .atomic (.alt a' b') => if rtl then .fail 30 else (union (cert o rtl a a') (cert o rtl b b')).wrap
+    | .atomic (.alt a' b') => (union (cert o rtl a a') (cert o rtl b b')).wrap
     | _ => .fail 6
   | rtl, .cap g a, p' =>
     match p' with
@@ -381,7 +399,7 @@ def cert (o : Oracle) : Bool → Pat → Pat → Res
     match p' with
     | .refCond g' y' n' => if g = g' then union (cert o rtl y y') (cert o rtl n n') else .fail 12
     | .atomic (.refCond g' y' n') =>
-      if g = g' ∧ rtl = false then (union (cert o rtl y y') (cert o rtl n n')).wrap else .fail 12
+      if g = g' then (union (cert o rtl y y') (cert o rtl n n')).wrap else .fail 12
     | _ => .fail 12
   | rtl, .exprCond c y n, p' =>
     match p' with
@@ -390,7 +408,6 @@ def cert (o : Oracle) : Bool → Pat → Pat → Res
       let r := union (cert o rtl y y') (cert o rtl n n')
       { r with errs := rc.errs ++ r.errs, made := rc.made + r.made }
     | .atomic (.exprCond c' y' n') =>
-      if rtl then .fail 13 else
       let rc := (cert o rtl c c').close
       let r := union (cert o rtl y y') (cert o rtl n n')
       ({ r with errs := rc.errs ++ r.errs, made := rc.made + r.made } : Res).wrap
